@@ -19,6 +19,7 @@ import PolyVerif.Lemmas.SolidsLoops
 import PolyVerif.Lemmas.SolidsTopo
 import PolyVerif.Lemmas.SolidsLoopsV
 import PolyVerif.Lemmas.SolidsUmbrella
+import PolyVerif.Lemmas.SolidsUmbrella2
 import PolyVerif.Gen.CubeTable
 import Mathlib.Tactic
 
@@ -257,6 +258,27 @@ theorem uvSphereUnwelded_oneUmbrella_mod_merge {rows cols : Nat} (hR : 2 ≤ row
   rw [uvUnwelded_map_src]; exact uvSphere_umbrella hR hC hv
 
 example : UmbrellaCycle (uvSphereTris 5 7) 12 := uvSphere_oneUmbrella (by decide) (by decide) (by decide)
+
+/-- one umbrella per merged vertex, capped cylinder, all side counts `≥ 3` (centres: the `sides` rim vertices; rim
+    vertices: five neighbours) -/
+theorem cylinder_oneUmbrella_mod_merge {sides : Nat} (hS : 3 ≤ sides) {v : Nat} (hv : v < cylinderNV sides false false) :
+    UmbrellaCycle ((cylinderTris sides false false).map (tmap (cylinderPt sides))) (cylinderPt sides v) :=
+  cylinder_umbrella_mod_merge hS hv
+
+/-- the executable predicate `Umbrella` (what the oracle `c18.holds.manifold` and the box theorems evaluate) is SOUND for
+    the exhibited-cycle notion: whenever the checker accepts, the link edges of `v` are exactly the consecutive pairs of
+    one duplicate-free cycle (the walk it followed) -/
+theorem umbrella_checker_sound {β : Type} [DecidableEq β] (ts : List (β × β × β)) (v : β) (h : Umbrella ts v) :
+    UmbrellaCycle ts v :=
+  umbrella_sound ts v h
+
+/-- hence the boxes, in the same form as the round primitives -/
+theorem cubeWelded_oneUmbrella : ∀ v ∈ cornersOf cubeWeldedTris, UmbrellaCycle cubeWeldedTris v :=
+  vertexManifold_sound _ cubeWelded_vm
+
+theorem cubeQuads_oneUmbrella_mod_merge : ∀ v ∈ cornersOf (cubeQuadsTris.map (tmap cubeQuadsPt)),
+    UmbrellaCycle (cubeQuadsTris.map (tmap cubeQuadsPt)) v :=
+  vertexManifold_sound _ cubeQuads_vm
 
 /-! ## The rotated parts as the code builds them = the exact forms (over ℝ)
 
